@@ -16,7 +16,7 @@ def run(chk, st, tier):
     cases = []
     for k in range(n):
         sh = shapes[k % len(shapes)]
-        cases.append(("f%d" % k, sh, Fo.gen_file_choice(rng), Fo.gen_batches(rng, sh, maxrecs=9 if sh.name != "flat24" else 5)))
+        cases.append(("f%d" % k, sh, Fo.gen_file_choice(rng), Fo.gen_batches(rng, sh, maxrecs=9 if sh.name != "flat24" else 5, allow_empty=True)))
     # long level streams: bit-packed runs of 64..70 groups and long RLE runs need pages with hundreds of entries
     small = [s for s in shapes if s.name in ("opt3", "boolopt")] or shapes[:1]
     for k in range(8 if tier == "quick" else 80):
@@ -52,7 +52,7 @@ def run(chk, st, tier):
     impl, model, e1, e2 = C.run_cases(lines, "C04-read", impl_cmd=[runner])
     ok = 0
     mism = 0
-    dist = {"codec0": 0, "codec1": 0, "codec2": 0, "stats0": 0, "stats1": 0, "stats2": 0, "bitpacked>=64groups": 0, "pad!=0": 0}
+    dist = {"files_with_an_empty_row_group": sum(1 for c in cases if any(len(b) == 0 for b in c[3])), "codec0": 0, "codec1": 0, "codec2": 0, "stats0": 0, "stats1": 0, "stats2": 0, "bitpacked>=64groups": 0, "pad!=0": 0}
     for i, sh, fc, b in cases:
         if i not in files:
             chk.broke("machinery:C04", "no file for case %s" % i)
@@ -99,6 +99,6 @@ def run(chk, st, tier):
     chk.sample({"shape": i0[1].name, "choices": Fo.file_choice_tokens(i0[2])[:200], "row_groups": [len(x) for x in i0[3]], "real_reader": (impl.get(i0[0]) or "")[:100]})
     chk.coverage["rule"] = ("files written by the extracted independent writer Foreign.foreign_file (specification RLE encoder, thrift model, real snappy/gzip) from random choices: run segmentation of every level stream "
                             "(RLE runs of any length >= 1, bit-packed runs of 1..70 groups, any padding value), independent page splits per column at record boundaries, per-column codec, statistics absent / current / also deprecated fields, "
-                            "CRC, created_by, key/value metadata, encoding_stats, three file_offset conventions, both total_byte_size conventions; over the portfolio shapes. Each file must be accepted by the validator (so it is conformant), "
+                            "CRC, created_by, key/value metadata, encoding_stats, three file_offset conventions, both total_byte_size conventions, row groups with no rows; over the portfolio shapes. Each file must be accepted by the validator (so it is conformant), "
                             "then is read by the real generated reader (oracle: exactly the records) and by the reader model. distinct = distinct files.")
     chk.coverage["explanation"] = "see coq/props/C04.v."
